@@ -80,6 +80,8 @@ def judgeClip (L : Lines) (A : Operand) (rhs : Tok) : String :=
           (if (s.all fun l => trivialCase [l] c) && !got.isEmpty then s!"DIFF {cls} model-differs (model has no piece, implementation {got.length})"
            else s!"OK {cls}")
         else if (want.flatMap pairs) ≠ oracleSegments c s then s!"DIFF {cls} oracle-chains-inconsistent-with-oracleSegments"
+        -- the decidable hypothesis of `C14_exact_of_segs` (one side of every boundary crossing is inside)
+        else if !closureOK c s then s!"DIFF {cls} closure-hypothesis-of-C14_exact_of_segs-fails"
         else
           -- emptiness, exactly
           if got.isEmpty ≠ oracleEmpty c s then
